@@ -68,6 +68,7 @@ type phase struct {
 	Workers int
 	Runs    int     // per worker; 0 = until the enumeration share is exhausted
 	BudgetS float64 // per worker wall-clock cap for starting new runs
+	Isolate bool    // every run in a process of its own (no state of the library survives from run to run)
 }
 
 func phasesFor(prop, tier string, workers int) []phase {
@@ -75,24 +76,30 @@ func phasesFor(prop, tier string, workers int) []phase {
 	switch prop {
 	case "C05":
 		if q {
-			return []phase{{"enumeration", false, workers, 0, 240}}
+			return []phase{{"enumeration", false, workers, 0, 240, false}}
 		}
-		return []phase{{"enumeration", false, workers, 0, 3000}, {"enumeration-race-sample", true, workers, 40, 600}}
+		return []phase{{"enumeration", false, workers, 0, 3000, false}, {"enumeration-race-sample", true, workers, 40, 600, false}}
 	case "C04":
 		if q {
-			return []phase{{"history-search", false, workers, 250, 60}, {"history-search-race", true, workers, 70, 60}}
+			return []phase{{"history-search", false, workers, 250, 60, false}, {"history-search-race", true, workers, 70, 60, false},
+				{"history-search-process-per-run", false, workers, 40, 40, true}}
 		}
-		return []phase{{"history-search", false, workers, 125000, 600}, {"history-search-race", true, workers, 20000, 600}}
+		return []phase{{"history-search", false, workers, 125000, 600, false}, {"history-search-race", true, workers, 20000, 600, false},
+			{"history-search-process-per-run", false, workers, 2500, 200, true}}
 	case "C06":
 		if q {
-			return []phase{{"schedule-search-race", true, workers, 500, 70}, {"schedule-search", false, workers, 600, 40}}
+			return []phase{{"schedule-search-race", true, workers, 500, 70, false}, {"schedule-search", false, workers, 600, 40, false},
+				{"schedule-search-process-per-run", false, workers, 100, 40, true}}
 		}
-		return []phase{{"schedule-search-race", true, workers, 100000, 900}, {"schedule-search", false, workers, 100000, 300}}
+		return []phase{{"schedule-search-race", true, workers, 100000, 900, false}, {"schedule-search", false, workers, 100000, 300, false},
+			{"schedule-search-process-per-run", false, workers, 5000, 200, true}}
 	case "C14":
 		if q {
-			return []phase{{"extend-histories", false, workers, 600, 60}, {"extend-histories-race", true, workers, 100, 60}}
+			return []phase{{"extend-histories", false, workers, 600, 60, false}, {"extend-histories-race", true, workers, 100, 60, false},
+				{"extend-histories-process-per-run", false, workers, 100, 40, true}}
 		}
-		return []phase{{"extend-histories", false, workers, 100000, 600}, {"extend-histories-race", true, workers, 12000, 400}}
+		return []phase{{"extend-histories", false, workers, 100000, 600, false}, {"extend-histories-race", true, workers, 12000, 400, false},
+			{"extend-histories-process-per-run", false, workers, 5000, 200, true}}
 	}
 	return nil
 }
@@ -100,6 +107,7 @@ func phasesFor(prop, tier string, workers int) []phase {
 var levels = map[string]string{"C04": "exploration", "C05": "fault_enumeration", "C06": "exploration", "C14": "exploration"}
 
 type runOut struct {
+	worker int
 	rep    *Report
 	stderr string
 	code   int
@@ -203,7 +211,7 @@ func main() {
 
 	ev := newEvidence(prop, *tier, seed, info)
 	var failures []Replay
-	for pi, ph := range phases {
+	runPhase := func(pi int, ph phase) {
 		runs := ph.Runs
 		first := 0
 		if ph.Runs > 0 {
@@ -215,7 +223,8 @@ func main() {
 				runs = 1
 			}
 		}
-		outs := make([]runOut, ph.Workers)
+		var outs []runOut
+		var omu sync.Mutex
 		var wg sync.WaitGroup
 		t0 := time.Now()
 		for w := 0; w < ph.Workers; w++ {
@@ -224,22 +233,47 @@ func main() {
 				defer wg.Done()
 				rd := filepath.Join(realDir, fmt.Sprintf("%s-w%d", ph.Name, w))
 				os.MkdirAll(rd, 0o755)
-				outs[w] = runWorker(bins[ph.Race], 0, "", "--prop", prop, "--tier", *tier, "--seed", strconv.FormatUint(seed, 10),
-					"--worker", strconv.Itoa(w), "--workers", strconv.Itoa(ph.Workers), "--runs", strconv.Itoa(runs),
-					"--first", strconv.Itoa(first), "--budget-s", fmt.Sprint(ph.BudgetS), "--realdir", rd, "--emit-keys")
+				common := []string{"--prop", prop, "--tier", *tier, "--seed", strconv.FormatUint(seed, 10),
+					"--worker", strconv.Itoa(w), "--workers", strconv.Itoa(ph.Workers), "--realdir", rd, "--emit-keys"}
+				if !ph.Isolate {
+					o := runWorker(bins[ph.Race], 0, "", append(common, "--runs", strconv.Itoa(runs), "--first", strconv.Itoa(first), "--budget-s", fmt.Sprint(ph.BudgetS))...)
+					o.worker = w
+					omu.Lock()
+					outs = append(outs, o)
+					omu.Unlock()
+					return
+				}
+				// one process per run: whatever the library keeps outside the detector tree starts afresh
+				for i := 0; i < runs && time.Since(t0).Seconds() < ph.BudgetS; i++ {
+					o := runWorker(bins[ph.Race], 0, "", append(common, "--runs", "1", "--first", strconv.Itoa(first+i))...)
+					o.worker = w
+					omu.Lock()
+					outs = append(outs, o)
+					omu.Unlock()
+					if o.rep == nil || o.code != 0 || len(o.rep.Failures) > 0 {
+						return
+					}
+				}
 			}(w)
 		}
 		wg.Wait()
-		for w, o := range outs {
+		for _, o := range outs {
+			w := o.worker
 			if o.rep == nil || (o.code != 0) {
 				fatal2("phase %s worker %d: exit %d, %v\n%s", ph.Name, w, o.code, o.err, tail(o.stderr, 30))
 			}
 			if o.rep.Harness != "" {
 				fatal2("phase %s worker %d: %s", ph.Name, w, o.rep.Harness)
 			}
-			failures = append(failures, o.rep.Failures...)
+			for _, f := range o.rep.Failures {
+				f.Isolated = ph.Isolate
+				failures = append(failures, f)
+			}
 		}
 		ev.addPhase(ph, outs, time.Since(t0).Seconds())
+	}
+	for pi, ph := range phases {
+		runPhase(pi, ph)
 	}
 
 	if !*noSelftest {
@@ -252,6 +286,19 @@ func main() {
 
 	known := loadKnown(filepath.Join(verifDir, "known_findings.txt"))
 	violations, knownHits := judge(prop, seed, failures, info, bins, realDir, known)
+	if leakedRuns > 0 && len(violations) == 0 {
+		// escalate: judge the property with no state shared between runs at all
+		for pi, ph := range phases {
+			if ph.Isolate {
+				failures = failures[:0]
+				ph.Name, ph.Runs, ph.BudgetS = "escalation-process-per-run", ph.Runs*6, ph.BudgetS*3
+				runPhase(len(phases)+pi, ph)
+				v2, k2 := judge(prop, seed, failures, info, bins, realDir, known)
+				violations, knownHits = append(violations, v2...), knownHits+k2
+			}
+		}
+		ev.Coverage["runs_not_reproducible_outside_their_worker"] = leakedRuns
+	}
 	ev.Violations = len(violations)
 	ev.Coverage["failing_runs_observed"] = len(failures)
 	ev.Coverage["known_findings_hit"] = knownHits
